@@ -892,6 +892,62 @@ def _callers_bound(F, b, param, w):
     return True
 
 
+def check_user_container_viewed_once(ctx, F):
+    """A model that stores a container of a caller-chosen type (`Pmf: AsRef<[F]>`) looks at it through `as_ref()`, which is the
+    caller's code and may answer differently each time.  One query of the model (EncoderModel / DecoderModel method) therefore
+    takes the view once and does everything - bounds check, length, sums - on that slice; private helpers called by the query
+    are counted in.  Two views in one query let the check and the use see different slices."""
+    n = 0
+    for b in F.bodies:
+        if b.promoted is not None or b.dk != 'AssocFn' or '::tests::' in b.defpath or b.impl_trait not in ('stream::model::EncoderModel', 'stream::model::DecoderModel'):
+            continue
+        params = _user_container_params(F, b.self_adt)
+        if not params:
+            continue
+
+        def views_in(body, depth):
+            """max number of views of a user container on one path of body (+ callees on self, `depth` levels)"""
+            try:
+                _, paths = rules.evaluate(body, call_hook=_fresh_user_views)
+            except Exception:
+                return None
+            best = 0
+            for r in paths or []:
+                k = 0
+                seen = set()
+                for e in r.events:
+                    if e['kind'] != 'call':
+                        continue
+                    if str(e['callee']).startswith('user-view@'):
+                        continue
+                    h = F.by_def.get(e['callee'])
+                    if depth and h is not None and h is not body and h.self_adt == body.self_adt and h.promoted is None and e['args'] and e['args'][0] in (('ref', (1, 'deref'), False), ('in', (1,)), ('arg', 1)):
+                        sub = views_in(h, depth - 1)
+                        k += sub or 0
+                terms = ([r.ret] if r.ret is not None else []) + [t for t, v, _ in r.preds] + [a for e in r.events if e['kind'] == 'call' for a in e.get('args_val', e['args'])] + [e['value'] for e in r.events if e['kind'] in ('write', 'write_ref')]
+                for t in terms:
+                    for x in sym.subterms(t):
+                        if isinstance(x, tuple) and x and x[0] == 'call' and str(x[1]).startswith('user-view@') and x[2]:
+                            obj = x[2][0]
+                            # only the container stored in the model (rooted at self), not the caller's symbol argument
+                            if isinstance(obj, tuple) and obj and obj[0] == 'in' and obj[1][:1] == (1,):
+                                seen.add(x[1])
+                best = max(best, k + len(seen))
+            return best
+        v = views_in(b, 1)
+        n += 1
+        key = 'R8/user-container-viewed-once/' + b.defpath
+        role = 'one query looks at the caller-supplied container once'
+        ctx.touch(b)
+        if v is None:
+            ctx.unresolved('R8', role, b.defpath, 'not evaluated', key=key)
+        elif v <= 1:
+            ctx.ok('R8', role, b.defpath, '%d view(s) of the container on every path (helpers on self included)' % v, key=key)
+        else:
+            ctx.bad('R8', role, b.defpath, 'up to %d separate views (`as_ref()` / `borrow()` / `deref()`) of the caller-supplied container in one query, counting the private helpers it calls: the bounds check and the quantities derived from the length may come from different slices' % v, key=key, loc=rules.loc(b))
+    ctx.extra['user_container_queries'] = n
+
+
 def check_size_hint_arithmetic(ctx, F):
     """`Iterator::size_hint` of a caller's iterator is an arbitrary number: every unbounded std iterator (`0..`, `repeat`, `cycle`)
     reports a lower bound of usize::MAX.  An overflow-checked `+` / `*` on it panics in debug builds and wraps in release builds,
@@ -1037,6 +1093,7 @@ def run(ctx):
     check_validators_fetch_once(ctx, F)
     check_const_shift_bounded(ctx, F)
     check_size_hint_arithmetic(ctx, F)
+    check_user_container_viewed_once(ctx, F)
     import props.C05 as c05
     c05.check_cdf_search_extent(ctx, F)      # the TRUSTED-DATA rows of the searched decoders say 'the search lands in 1..len-1': true only for a search that excludes the last entry
     n_cursor_unsafe = sum(1 for s in unsafe_sites(F) if s['body'].file.endswith('backends.rs'))
